@@ -37,6 +37,7 @@ type SpecEnv struct {
 	goal      bool // evaluating something to be proved (skolemise positive foralls)
 	neg       bool // current polarity is negative
 	inOld     bool
+	univ      []*Term // enclosing bound variables that stay quantified (skolems below them are functions)
 }
 
 func (x *Explorer) specEnv(st *State, f *Frame, con *Contract) *SpecEnv {
@@ -190,7 +191,7 @@ func (env *SpecEnv) lookupLocal(name string) (Val, bool) {
 	}
 	var best *ssa.Alloc
 	for a := range f.cells {
-		if a.Comment == name && (best == nil || a.Pos() > best.Pos()) {
+		if a.Comment == name && (best == nil || a.Pos() > best.Pos() || (a.Pos() == best.Pos() && f.cellOrd[a] > f.cellOrd[best])) {
 			best = a
 		}
 	}
@@ -864,15 +865,30 @@ func (env *SpecEnv) quant(e *SExpr) Val {
 	// forall to be proved (positive, goal) or assumed negatively: skolemise
 	skolem := (e.Kind == "forall" && env.goal && !env.neg) || (e.Kind == "exists" && !env.goal && !env.neg) ||
 		(e.Kind == "exists" && env.goal && env.neg) || (e.Kind == "forall" && !env.goal && env.neg)
+	var hints []*Term
+	for _, h := range e.Hints {
+		hints = append(hints, env.evalInt(h))
+	}
+	nUniv := len(env.univ)
 	for _, n := range e.Bound {
 		if old, ok := env.bound[n]; ok {
 			saved[n] = old
 		}
 		var s *Term
 		if skolem {
-			s = env.st.freshInt("sk_" + n)
-			if env.goal {
-				env.st.skolems = append(env.st.skolems, s)
+			prefix := "sk_"
+			if e.Kind == "exists" {
+				prefix = "ex_" // a witness: candidate instance for existentials that have to be proved
+			}
+			if len(env.univ) > 0 {
+				// below a quantifier that stays: the skolem is a function of its variables
+				env.x.fresh++
+				s = UF(fmt.Sprintf("%s%s!%d", prefix, n, env.x.fresh), SInt, env.univ...)
+			} else {
+				s = env.st.freshInt(prefix + n)
+				if env.goal {
+					env.st.skolems = append(env.st.skolems, s)
+				}
 			}
 		} else {
 			env.x.fresh++
@@ -881,8 +897,12 @@ func (env *SpecEnv) quant(e *SExpr) Val {
 		env.bound[n] = s
 		bs = append(bs, s)
 	}
+	if !skolem {
+		env.univ = append(env.univ[:nUniv:nUniv], bs...)
+	}
 	nFacts := len(env.st.facts)
 	body := env.evalBool(e.Args[0])
+	env.univ = env.univ[:nUniv]
 	if !skolem && len(env.st.facts) > nFacts {
 		// typing facts about terms that mention the bound variables must be quantified too
 		var keep, lift []*Term
@@ -918,7 +938,7 @@ func (env *SpecEnv) quant(e *SExpr) Val {
 	if e.Kind == "forall" {
 		return VInt{T: Forall(bs, body)}
 	}
-	return VInt{T: &Term{Op: "exists", Sort: SBool, Bound: bs, Args: []*Term{body}}}
+	return VInt{T: &Term{Op: "exists", Sort: SBool, Bound: bs, Args: append([]*Term{body}, hints...)}}
 }
 
 func (env *SpecEnv) sortOf(name string) (sort, rec string) {
@@ -1063,6 +1083,9 @@ func (env *SpecEnv) call(e *SExpr) Val {
 		return VInt{T: Select(env.scalar(a, e), env.evalInt(args[1]))}
 	case "emptyBoolMap":
 		return VModel{T: ConstArr(ArrSort(SBool), tFalse), Dims: 1, Elem: "Bool"}
+	case "bytesOf":
+		// the content of []byte(s) for a string s
+		return VInt{T: UF("bytes_of_str", SInt, env.evalInt(args[0]))}
 	case "decBytes":
 		// the bytes of the decimal rendering of a uint64 (as produced by []byte(fmt.Sprintf("%d", n)))
 		n := env.evalInt(args[0])
